@@ -120,6 +120,7 @@ def run(rep):
             rep.violation('C19/eval-vs-step/concrete', 'eval() and prepare()+step() disagree on %r: %r' % (p_, o), pth)
     # eval() must leave the interpreter in the same environment as the step route does (which C11 decides for step):
     # on every return path of eval - Ok or Err - the caller's environment is current again
+    check_roles(rep)
     from . import c11
     c11.check_env_restoring_functions(rep, cross, specs=[('Interpreter', 'eval', False)], pid='C19')
     rep.cross = driver.cross_check(cross, 300, 'ALL', rep.tier, rep.seed)
@@ -134,7 +135,27 @@ PROGRAMS = [
     'import { order, __cancelOrder__ } from "tsrun:host"; const a = await order({k:1}); __cancelOrder__(1); const b = await order({k:2}); b',
     'const p = new Promise(() => {}); await p',
     'function* g() { yield 1; } const it = g(); it.next().value',
+    # the import-request list itself is compared: one file under two spellings, a type-only import next to a value import
+    'import { a } from "./utils"; import { b } from "./lib/../utils"; a + b',
+    'import type { T } from "./types"; import { v } from "./values"; v',
 ]
+
+COUNTER = 'let n = 0; export function bump() { n = n + 1; return n } export { n as count }; export let plain = 1; export function touch() { plain = plain + 1 } export default "counter";'
+CONSUMER = 'import d, { bump, count, plain, touch } from "./counter"; bump(); bump(); touch(); [d, count, plain].join(":")'
+
+
+def check_roles(rep):
+    """replay route: a module behaves the same as the entry program and as a host-supplied dependency - the consumer of its exports
+    (renamed export, live `let`, default) sees the same values in both roles"""
+    dep = driver.replay([{'cmd': 'module_graph', 'entry': '/d/main.ts', 'modules': {'/d/main.ts': CONSUMER, '/d/counter': COUNTER}, 'order': 'forward', 'batch': 'all'}])[0]
+    ent = driver.replay([{'cmd': 'seq_graph', 'programs': [{'src': COUNTER, 'path': '/d/counter'}, {'src': CONSUMER, 'path': '/d/main.ts', 'modules': {}}]}])[0]
+    rep.validated += 2
+    a = (dep.get('outcome') or {}).get('complete', dep.get('outcome'))
+    b = (ent['outs'][-1]['shared'].get('outcome') or {}).get('complete', ent['outs'][-1]['shared'].get('outcome'))
+    want = {'t': 'string', 'v': 'counter:2:2'}
+    if a != want or b != want:
+        p = rep.write_replay('roles', {'module': COUNTER, 'consumer': CONSUMER, 'as_dependency': a, 'as_entry_program': b, 'expected': want})
+        rep.violation('C19/roles/entry-vs-dependency', 'a consumer of the module sees %r when the module is a host-supplied dependency and %r when it was the entry program (expected %r both times)' % (a, b, want), p)
 
 
 def replay_file(path):
